@@ -150,6 +150,18 @@ pub fn machinery_failure(msg: &str) -> ! {
     std::process::exit(2)
 }
 
+/// `vcheck replay <file>`: the recorded schedule to re-execute instead of exploring.
+pub struct ReplayReq {
+    pub label: String,
+    pub actions: Vec<u16>,
+}
+pub static REPLAY: std::sync::OnceLock<ReplayReq> = std::sync::OnceLock::new();
+/// (system label, violation keys of run 1, violation keys of run 2, state digests equal)
+pub static REPLAY_RESULTS: Mutex<Vec<(String, Vec<String>, Vec<String>, bool)>> = Mutex::new(Vec::new());
+pub fn replay_req() -> Option<&'static ReplayReq> {
+    REPLAY.get()
+}
+
 static PANIC_MESSAGES: Mutex<Vec<String>> = Mutex::new(Vec::new());
 static THREAD_PANICS: Mutex<Vec<(std::thread::ThreadId, String)>> = Mutex::new(Vec::new());
 
@@ -285,6 +297,10 @@ impl Report {
 
     /// Writes evidence, prints KNOWN-FINDING / VIOLATION lines, returns exit code.
     pub fn finish(self, coverage: Value) -> i32 {
+        if replay_req().is_some() {
+            // a replay never rewrites evidence or replay files
+            return 0;
+        }
         let known = load_known_findings(self.id);
         let violations = self.violations.into_inner().unwrap();
         let mut new_violations = 0;
